@@ -82,8 +82,13 @@ def optStr? : Sexp → Option (Option String)
   | .atom "none" => some none
   | s => s.str?.map some
 
+def showExt : Option Ext → String
+  | none => "none"
+  | some (.range a b) => s!"({a} {b})"
+  | some (.point t) => s!"(point {t})"
+
 def showEmitted (e : Emitted) : String :=
-  s!"({atomOfString e.mdl} {atomOfString e.tpl} {showExtent e.extent} {showProps e.props})"
+  s!"({atomOfString e.mdl} {atomOfString e.tpl} {showExt e.extent} {showProps e.props})"
 
 def runC05d (line : String) : String :=
   match Sexp.parse line with
@@ -101,6 +106,51 @@ def runC05d (line : String) : String :=
     | _, _, _, _, _, _, _ => "bad-op"
   | _ => "bad-op"
 
-def streams : List (String × (String → String)) := [("c05", runC05), ("c05d", runC05d)]
+end EmitModel.Driver.C05
+
+namespace EmitModel.Driver.C05
+open EmitModel EmitModel.SpanGuard
+
+/-  stream `c05m` : (c05m FORM LVL OK ERR MAPPED PAN ENABLED EXIT (clock R…))
+        FORM ::= sync | async | gdrop | gcomplete | block ; LVL,OK,ERR,PAN ::= none | debug|info|warn|error
+        EXIT ::= ok | early | qerr | reterr | panic
+    → ret=<ok1|ok2|ok7|err|panic> events=(…) -/
+
+def optAtom? : Sexp → Option (Option String)
+  | .atom "none" => some none
+  | .atom s => some (some s)
+  | _ => none
+
+def lookupF (k : String) : Props → String
+  | [] => "none"
+  | (k', v) :: rest => if k' == k then v else lookupF k rest
+
+def showMacroEvent (e : Emitted) : String :=
+  s!"(lvl={lookupF "lvl" e.props} err={lookupF "err" e.props} extent={showExt e.extent} name={atomOfString (lookupF "span_name" e.props)} kind={lookupF "evt_kind" e.props} mdl={atomOfString e.mdl} tpl={atomOfString e.tpl})"
+
+def runC05m (line : String) : String :=
+  match Sexp.parse line with
+  | some (.list [.atom "c05m", .atom form, lvl, ok, err, mapped, pan, en, .atom exit, .list (.atom "clock" :: rs)]) =>
+    match optAtom? lvl, optAtom? ok, optAtom? err, mapped.bool?, optAtom? pan, en.bool?, rs.mapM reading? with
+    | some lvl, some ok, some err, some mapped, some pan, some enabled, some clk =>
+      let isFn := form == "sync" || form == "async"
+      let formOk := isFn || ((form == "gdrop" || form == "gcomplete" || form == "block") && ok.isNone && err.isNone && !mapped)
+      let exit? : Option (Exit × String) :=
+        if exit == "ok" then some (.ok, if isFn then "ok1" else "ok7")
+        else if exit == "early" && isFn then some (.ok, "ok2")
+        else if (exit == "qerr" || exit == "reterr") && isFn then some (.err, "err")
+        else if exit == "panic" then some (.panic, "panic")
+        else none
+      match formOk, exit? with
+      | true, some (ex, ret) =>
+        let cfg : MacroCfg := ⟨lvl, ok, err, mapped, mapped, pan, form == "gcomplete"⟩
+        let evs := macroRun cfg enabled ex clk "hcore::streams::c05m::fixtures" "fx {n}" "fx {n}"
+          (if mapped then "inner-boom" else "boom") []
+        s!"ret={ret} events=({" ".intercalate (evs.map showMacroEvent)})\tform={form},res={cfg.useResult},en={enabled},exit={exit}"
+      | _, _ => "bad-op"
+    | _, _, _, _, _, _, _ => "bad-op"
+  | _ => "bad-op"
+
+def streams : List (String × (String → String)) := [("c05", runC05), ("c05d", runC05d), ("c05m", runC05m)]
 
 end EmitModel.Driver.C05
